@@ -240,6 +240,11 @@ func variants(rng *rand.Rand, e *vx.Expr) []*vx.Expr {
 			out = append(out, &vx.Expr{Op: e.Op, Es: []*vx.Expr{{Op: other, Es: e.Es[:len(e.Es)-1]}, e.Es[len(e.Es)-1]}})
 			out = append(out, &vx.Expr{Op: other, Es: []*vx.Expr{{Op: e.Op, Es: e.Es[1:]}, e.Es[0]}})
 			out = append(out, &vx.Expr{Op: e.Op, Es: e.Es[:len(e.Es)-1]})
+			// trailing operand moved into / out of a nested operator in the middle
+			mid := &vx.Expr{Op: other, Es: []*vx.Expr{e.Es[0], e.Es[len(e.Es)-1]}}
+			tail := e.Es[len(e.Es)-1]
+			out = append(out, &vx.Expr{Op: e.Op, Es: []*vx.Expr{e.Es[0], mid, tail}})
+			out = append(out, &vx.Expr{Op: e.Op, Es: []*vx.Expr{e.Es[0], {Op: other, Es: append(append([]*vx.Expr{}, mid.Es...), tail)}}})
 		}
 		// De Morgan shaped neighbour: NOT over the other operator of negated operands
 		neg := []*vx.Expr{}
